@@ -92,7 +92,14 @@ def expr(e):
         return "(.neg %s)" % expr(e.operand)
     if isinstance(e, ast.Compare):
         if len(e.ops) != 1:
-            raise Untranslatable("chained comparison")
+            # `a < b <= c` is `a < b and b <= c` (the operands of the fragment have no side effects)
+            terms = [e.left] + list(e.comparators)
+            pairs = [expr(ast.Compare(left=terms[i], ops=[e.ops[i]], comparators=[terms[i + 1]]))
+                     for i in range(len(e.ops))]
+            out = pairs[-1]
+            for v in reversed(pairs[:-1]):
+                out = "(.and_ %s %s)" % (v, out)
+            return out
         op, r = e.ops[0], e.comparators[0]
         if isinstance(op, ast.Is) and isinstance(r, ast.Constant) and r.value is None:
             return "(.isNone %s)" % expr(e.left)
@@ -102,6 +109,8 @@ def expr(e):
             return "(.%s %s %s)" % ("eqStr" if isinstance(op, ast.Eq) else "neStr", expr(e.left), expr(r))
         if isinstance(op, ast.In) and isinstance(r, (ast.Tuple, ast.List)) and all(is_intconst(x) for x in r.elts):
             return "(.inInts %s [%s])" % (expr(e.left), ", ".join("(%d)" % x.value for x in r.elts))
+        if isinstance(op, ast.In) and is_strconst(e.left) and e.left.value:
+            return "(.inStr %s %s)" % (expr(e.left), expr(r))                  # "." in text
         name = {ast.Lt: "lt", ast.LtE: "le", ast.Gt: "gt", ast.GtE: "ge", ast.Eq: "eq", ast.NotEq: "ne"}.get(type(op))
         if not name:
             raise Untranslatable("comparison %s" % type(op).__name__)
@@ -115,6 +124,8 @@ def expr(e):
         return out
     if isinstance(e, ast.UnaryOp) and isinstance(e.op, ast.Not):
         return "(.not_ %s)" % expr(e.operand)
+    if isinstance(e, ast.IfExp):
+        return "(.ifExp %s %s %s)" % (expr(e.test), expr(e.body), expr(e.orelse))          # a if c else b
     if isinstance(e, ast.Call) and isinstance(e.func, ast.Name) and not e.keywords:
         f, a = e.func.id, e.args
         if f == "min" and len(a) == 2:
@@ -126,6 +137,8 @@ def expr(e):
             return "(.mkSlice %s)" % " ".join(parts)
         if f == "isinstance" and len(a) == 2 and isinstance(a[1], ast.Name) and a[1].id == "int":
             return "(.isInt %s)" % expr(a[0])
+        if f == "isinstance" and len(a) == 2 and isinstance(a[1], ast.Name) and a[1].id == "slice":
+            return "(.isSlice %s)" % expr(a[0])
         if f == "len" and len(a) == 1:
             if isinstance(a[0], ast.Constant) and isinstance(a[0].value, bytes):
                 return "(.len (.strc [%s]))" % ", ".join(str(b) for b in a[0].value)   # length of a bytes literal
@@ -148,6 +161,15 @@ def expr(e):
     if isinstance(e, ast.Call) and isinstance(e.func, ast.Attribute) and e.func.attr == "startswith" \
             and len(e.args) == 1 and not e.keywords:
         return "(.startswith %s %s)" % (expr(e.func.value), expr(e.args[0]))
+    if isinstance(e, ast.Call) and isinstance(e.func, ast.Attribute) and e.func.attr == "group" \
+            and len(e.args) == 1 and not e.keywords and is_intconst(e.args[0]) and e.args[0].value >= 0:
+        return "(.group %s %d)" % (expr(e.func.value), e.args[0].value)        # match.group(n)
+    if isinstance(e, ast.Call) and isinstance(e.func, ast.Attribute) and e.func.attr == "join" \
+            and is_strconst(e.func.value) and len(e.args) == 1 and not e.keywords:
+        return "(.joinStr %s %s)" % (expr(e.func.value), expr(e.args[0]))      # ",".join(ids)
+    if isinstance(e, ast.Call) and isinstance(e.func, ast.Attribute) and e.func.attr == "rpartition" \
+            and len(e.args) == 1 and not e.keywords:
+        return "(.rpartition %s %s)" % (expr(e.func.value), expr(e.args[0]))
     if isinstance(e, (ast.List, ast.Tuple)) and not e.elts:
         return ".emptyList"                                                    # [] / ()
     if isinstance(e, ast.Call) and isinstance(e.func, ast.Attribute) and e.func.attr == "get" \
@@ -175,6 +197,8 @@ def expr(e):
             return "(.rev %s)" % expr(e.value)                   # x[::-1]
         if sl.step is None and sl.lower is not None and sl.upper is not None:
             return "(.slice2 %s %s %s)" % (expr(e.value), expr(sl.lower), expr(sl.upper))   # x[a:b]
+        if sl.step is None and sl.lower is not None and sl.upper is None:
+            return "(.dropE %s %s)" % (expr(e.value), expr(sl.lower))                       # x[a:] (computed a)
         raise Untranslatable("slice subscript")
     if isinstance(e, ast.Subscript) and isinstance(e.value, ast.Dict):
         d = e.value
@@ -321,6 +345,23 @@ def stmt1(s, sink, tail=False):
     if isinstance(s, ast.AugAssign) and isinstance(s.target, ast.Name) and isinstance(s.op, ast.Add) \
             and isinstance(s.value, ast.Tuple) and len(s.value.elts) == 1:
         return "(.append %s %s)" % (lstr(s.target.id), expr(s.value.elts[0]))          # t += (e,)
+    if isinstance(s, ast.Assign) and len(s.targets) == 1 and isinstance(s.targets[0], ast.Tuple) \
+            and len(s.targets[0].elts) == 3 and all(isinstance(t, ast.Name) for t in s.targets[0].elts):
+        a, b, c = [t.id for t in s.targets[0].elts]
+        return "(.unpack3 %s %s %s %s)" % (lstr(a), lstr(b), lstr(c), expr(s.value))       # a, b, c = e
+    if isinstance(s, ast.Assign) and len(s.targets) == 1 and isinstance(s.targets[0], ast.Subscript) \
+            and isinstance(s.targets[0].value, ast.Name) and is_intconst(s.targets[0].slice) \
+            and s.targets[0].slice.value >= 0:
+        return "(.setIdx %s %d %s)" % (lstr(s.targets[0].value.id), s.targets[0].slice.value, expr(s.value))   # x[n] = e
+    if isinstance(s, ast.For) and isinstance(s.target, ast.Tuple) and len(s.target.elts) == 2 and not s.orelse \
+            and all(isinstance(t, ast.Name) for t in s.target.elts) and isinstance(s.iter, ast.Call) \
+            and isinstance(s.iter.func, ast.Name) and s.iter.func.id == "zip" and len(s.iter.args) == 2 \
+            and not s.iter.keywords:
+        if any(isinstance(n, (ast.Break, ast.Return)) for x in s.body for n in ast.walk(x)):
+            raise Untranslatable("break / return inside a for loop")
+        return "(.forZip %s %s %s %s %s)" % (lstr(s.target.elts[0].id), lstr(s.target.elts[1].id),
+                                             expr(s.iter.args[0]), expr(s.iter.args[1]),
+                                             stmts(s.body, None, False))                    # for x, y in zip(a, b)
     if isinstance(s, ast.For) and isinstance(s.target, ast.Name) and not s.orelse:
         if any(isinstance(n, (ast.Break, ast.Return)) for x in s.body for n in ast.walk(x)):
             raise Untranslatable("break / return inside a for loop")
@@ -732,7 +773,30 @@ def generate_ssf(repo):
         with abstracting({}, str_vars={"response"}, return_tags=True):
             return stmts([fn.body[at[0] + 1]], None, tail=True)
 
+    FMATCH, RSEARCH = "FUNCTION.match(selection)", "RELOP.search(match.group(1))"
+
+    def is_call_body():
+        fn = find_function(ssf, "is_call")
+        with abstracting({FMATCH: "@function_match", RSEARCH: "@relop_search"}):
+            return stmts(body_of(fn), None, tail=True)
+
+    def is_call_arg():
+        fn = find_function(ssf, "is_call")
+        body = body_of(fn)
+        if len(body) != 2 or ast.unparse(body[0]) != "match = " + FMATCH:
+            raise Untranslatable("expected `match = %s` first" % FMATCH)
+        calls = [n for n in ast.walk(body[1]) if isinstance(n, ast.Call) and ast.unparse(n.func) == "RELOP.search"]
+        if len(calls) != 1 or len(calls[0].args) != 1 or calls[0].keywords:
+            raise Untranslatable("expected exactly one call RELOP.search(<one argument>)")
+        with abstracting({FMATCH: "@function_match"}):
+            return "(.seq %s (.assign %s %s))" % (stmts(body[:1], None), lstr("@arg"), expr(calls[0].args[0]))
+
     parts = [HEADER,
+             block("src_is_call", "wsgi/ssf.py is_call: the whole body; the two regexp calls are inputs: `@function_match` for "
+                   "`FUNCTION.match(selection)` (None or a match object, given by its groups) and `@relop_search` for "
+                   "`RELOP.search(match.group(1))` (None or a match object); `return e` is `@ret = e`", is_call_body),
+             block("src_is_call_relop_arg", "wsgi/ssf.py is_call: `match = FUNCTION.match(selection)` followed by the "
+                   "argument the source passes to `RELOP.search` (`@arg = match.group(1)`)", is_call_arg),
              block("src_ssf_pass_test", "wsgi/ssf.py ServerSideFunctions.handle: the statement after the first "
                    "`path, response = req.path.rsplit(\".\", 1)` (DAS requests and requests without calls are passed "
                    "through); `called` and `response` are inputs, `return e` is `@ret = \"<source text of e>\"`",
@@ -741,7 +805,26 @@ def generate_ssf(repo):
     return "\n".join(parts)
 
 
-GENERATORS = [("SsfSrc.lean", generate_ssf), ("DmrSrc.lean", generate_dmr), ("LibSrc.lean", generate_lib), ("SliceSrc.lean", generate), ("DapSrc.lean", generate_dap), ("DodsSrc.lean", generate_dods),
+def body_of(fn):
+    return [x for x in fn.body if not (isinstance(x, ast.Expr) and is_strconst(x.value))]
+
+
+def generate_hlib(repo):
+    """handlers/lib.py `check_hyperslab` (C15/C02's `Handler.validSl` / the guard of `Handler.sliceBase`)"""
+    hlib = parse_src(repo, "handlers", "lib.py")
+
+    def check():
+        return stmts(body_of(find_function(hlib, "check_hyperslab")), None, tail=True)
+
+    parts = [HEADER,
+             block("src_check_hyperslab", "handlers/lib.py check_hyperslab: the whole body; `slice_` (a tuple of ints and "
+                   "slice objects) and `shape` (a tuple of ints) are the inputs; the loop is a MiniPy `forZip`; the "
+                   "message of the exception is not carried", check),
+             "end Pydap.Gen\n"]
+    return "\n".join(parts)
+
+
+GENERATORS = [("HlibSrc.lean", generate_hlib), ("SsfSrc.lean", generate_ssf), ("DmrSrc.lean", generate_dmr), ("LibSrc.lean", generate_lib), ("SliceSrc.lean", generate), ("DapSrc.lean", generate_dap), ("DodsSrc.lean", generate_dods),
               ("AppSrc.lean", generate_app), ("CeSrc.lean", generate_ce)]
 
 
